@@ -14,11 +14,12 @@ _resend = H("verifH_C01_resend", "L01.b resend under faults", T({"W":2,"wfaults"
 _outasm = ["pre-states are arbitrary states satisfying INV-out1/out2/seq of DESIGN 4.1 (counters < 2^62, 14-bit ring position free); the induction over histories is a paper step",
     "Persistence operations fail without effect; Load returns a private copy; net.Conn.Write contract as in C08"]
 S["C05"] = dict(title="Publishes and resends keep acceptance order; DUP marks only re-deliveries", technique=TECH+"; one/two operations from an arbitrary INV state, observed through resend", harnesses=[
+    H("verifH_C05_concurrent", "bounded schedule exploration: two concurrent publishers on one level, <= k preemptions at channel operations: identifiers distinct, wire order = identifier order, whole packets only, tokens returned", T({"preempt":2,"wfaults":0}), T({"preempt":3,"wfaults":1}, time_sec=2400, maxpaths=3000000), ("both-written-in-order","end")),
     H("verifH_C05_order", "L05.a two consecutive accepts: stamps n, n+1, wire order = acceptance order, DUP per written flag", T({"W":1,"wfaults":1}), T({"W":2,"wfaults":2}, time_sec=1500)),
     _accept, _resend, _ack],
   assumptions=_outasm+["schedules: serialisation of publishers follows from the single-slot seqSem token held across stamp+Save+enqueue+first write (checked on every sequential path: the token is taken first and returned last); interleavings themselves are not enumerated"],
-  bounds={"quick":"W<=2, 2 consecutive publishes, <= 2 faulty writes","thorough":"W<=3"},
-  outside=["fairness between publishers","enumeration of goroutine interleavings (replaced by the token argument)"])
+  bounds={"quick":"W<=2, 2 consecutive publishes, <= 2 faulty writes; 2 concurrent publishers with <= 2 preemptions","thorough":"W<=3; <= 3 preemptions and 1 write fault"},
+  outside=["fairness between publishers","more than 2 concurrent publishers or more than 3 preemptions (beyond that: the token argument)"])
 S["C17"] = dict(title="In-flight packet identifiers unique and bounded; excess gets ErrMax, no block", technique=TECH, harnesses=[
     H("verifH_C17_limits", "L17.a newClient limit normalisation for every int", reach=("end","zero")),
     H("verifH_C17_ring", "L17.b next identifier differs from every in-flight one while fewer than 0x4000 are in flight (all wrap positions at once)"),
